@@ -24,7 +24,6 @@ def gcmNonceSize : Nat := 12
 def gcmTagSize : Nat := 16
 def gcmBlockSizeExpr : String := "aes.BlockSize"
 def gcmMaxDataSizeExpr : String := "((1<<32)-2)*gcmBlockSize"
-def aesGCMCipherFactorySkeleton : List String := ["aes.NewCipher", "if(err!=nil){", "return", "}", "cipher.NewGCM", "return^"]
 def cryptoEncryptSkeleton : List String := ["c", "if(err!=nil){", "return", "}", "if(len(data)>gcmMaxDataSize){", "return", "}", "aeadCipher.Overhead", "if(gcmTagSize!=aeadCipher.Overhead()){", "return", "}", "aeadCipher.NonceSize", "if(gcmNonceSize!=aeadCipher.NonceSize()){", "return", "}", "aeadCipher.NonceSize", "internal.FillRandom", "aeadCipher.Seal", "return"]
 def cryptoDecryptSkeleton : List String := ["c", "if(err!=nil){", "return", "}", "aeadCipher.NonceSize", "if(len(data)<aeadCipher.NonceSize()){", "return", "}", "aeadCipher.NonceSize", "aeadCipher.Open", "if(err!=nil){", "fmt.Errorf", "return^", "}", "return"]
 def AES256KeySize : Nat := 32
@@ -42,8 +41,6 @@ def keyIdSuffixedPartitionIntermediateKeyID : List String := ["fmt.Sprintf(\"_IK
 def sqlLoadKeyQuery : String := "SELECT key_record FROM encryption_key WHERE id = ? AND created = ?"
 def sqlStoreKeyQuery : String := "INSERT INTO encryption_key (id, created, key_record) VALUES (?, ?, ?)"
 def sqlLoadLatestQuery : String := "SELECT key_record from encryption_key WHERE id = ? ORDER BY created DESC LIMIT 1"
-def sqlSQLMetastoreStoreSkeleton : List String := ["time.Now", "defer:storeSQLTimer.UpdateSince", "json.Marshal", "if(err!=nil){", "fmt.Errorf", "return^", "}", "time.Unix", "s.db.ExecContext", "if(err!=nil){", "fmt.Errorf", "return^", "}", "return"]
-def sqlparseEnvelopeSkeleton : List String := ["s.Scan", "if(err!=nil){", "errors.Is", "if(errors.Is(err,sql.ErrNoRows)){", "return", "}", "fmt.Errorf", "return^", "}", "[]byte", "json.Unmarshal", "if(err!=nil){", "fmt.Errorf", "return^", "}", "return"]
 def ddb1AttrNames : List String := ["Id", "Created", "KeyRecord"]
 def ddb2AttrNames : List String := ["Id", "Created", "KeyRecord"]
 def ddb1Envelope : List (String × String × String) := [("Revoked", "bool", "Revoked,omitempty"), ("Created", "int64", "Created"), ("EncryptedKey", "string", "Key"), ("ParentKeyMeta", "*appencryption.KeyMeta", "ParentKeyMeta,omitempty")]
@@ -51,9 +48,7 @@ def ddb2Item : List (String × String × String) := [("ID", "string", "Id"), ("C
 def ddb2Envelope : List (String × String × String) := [("Revoked", "bool", "Revoked,omitempty"), ("Created", "int64", "Created"), ("EncryptedKey", "string", "Key"), ("ParentKeyMeta", "*keyMeta", "ParentKeyMeta,omitempty")]
 def ddb2KeyMeta : List (String × String × String) := [("ID", "string", "KeyId"), ("Created", "int64", "Created")]
 def ddb1StoreFields : List String := ["DynamoDBEnvelope.Revoked=envelope.Revoked", "DynamoDBEnvelope.Created=envelope.Created", "DynamoDBEnvelope.EncryptedKey=base64.StdEncoding.EncodeToString(envelope.EncryptedKey)", "DynamoDBEnvelope.ParentKeyMeta=envelope.ParentKeyMeta", "dynamodb.PutItemInput.Item.partitionKey.S=keyID", "dynamodb.PutItemInput.Item.sortKey.N=aws.String(strconv.FormatInt(created,10))", "dynamodb.PutItemInput.Item.keyRecord.M=av", "dynamodb.PutItemInput.TableName=aws.String(d.tableName)", "dynamodb.PutItemInput.ConditionExpression=aws.String(\"attribute_not_exists(\"+partitionKey+\")\")"]
-def ddb1ParseResultSkeleton : List String := ["dynamodbattribute.Unmarshal", "if(err!=nil){", "fmt.Errorf", "return^", "}", "return"]
 def ddb2StoreFields : List String := ["keyMeta.ID=ekr.ParentKeyMeta.ID", "keyMeta.Created=ekr.ParentKeyMeta.Created", "envelope.Revoked=ekr.Revoked", "envelope.Created=ekr.Created", "envelope.EncryptedKey=base64.StdEncoding.EncodeToString(ekr.EncryptedKey)", "envelope.ParentKeyMeta=km", "dynamodb.PutItemInput.Item.partitionKey.Value=keyID", "dynamodb.PutItemInput.Item.sortKey.Value=strconv.FormatInt(created,10)", "dynamodb.PutItemInput.Item.keyRecord.Value=av", "dynamodb.PutItemInput.TableName=aws.String(d.tableName)", "dynamodb.PutItemInput.ConditionExpression=aws.String(\"attribute_not_exists(\"+partitionKey+\")\")"]
-def ddb2DecodeItemSkeleton : List String := ["attributevalue.UnmarshalMap", "if(err!=nil){", "fmt.Errorf", "return^", "}", "if(en==nil){", "fmt.Errorf", "return^", "}", "base64.StdEncoding.DecodeString", "if(err!=nil){", "fmt.Errorf", "return^", "}", "if(en.ParentKeyMeta!=nil){", "}", "return"]
 def ddb2DecodeItemFields : List String := ["appencryption.KeyMeta.ID=en.ParentKeyMeta.ID", "appencryption.KeyMeta.Created=en.ParentKeyMeta.Created", "appencryption.EnvelopeKeyRecord.ID=item.ID", "appencryption.EnvelopeKeyRecord.Revoked=en.Revoked", "appencryption.EnvelopeKeyRecord.Created=en.Created", "appencryption.EnvelopeKeyRecord.EncryptedKey=encryptedKey", "appencryption.EnvelopeKeyRecord.ParentKeyMeta=km"]
 def toProtobufDRRFields : List String := ["pb.DataRowRecord.Data=drr.Data", "pb.DataRowRecord.Key.Created=drr.Key.Created", "pb.DataRowRecord.Key.Key=drr.Key.EncryptedKey", "pb.DataRowRecord.Key.ParentKeyMeta.Created=drr.Key.ParentKeyMeta.Created", "pb.DataRowRecord.Key.ParentKeyMeta.KeyId=drr.Key.ParentKeyMeta.ID"]
 def fromProtobufDRRFields : List String := ["appencryption.DataRowRecord.Data=drr.GetData()", "appencryption.DataRowRecord.Key.EncryptedKey=drr.GetKey().GetKey()", "appencryption.DataRowRecord.Key.Created=drr.GetKey().GetCreated()", "appencryption.DataRowRecord.Key.ParentKeyMeta.ID=drr.GetKey().GetParentKeyMeta().GetKeyId()", "appencryption.DataRowRecord.Key.ParentKeyMeta.Created=drr.GetKey().GetParentKeyMeta().GetCreated()"]
